@@ -669,6 +669,41 @@ fn check_near_equal(p: f64, span: i64, cc: &mut CaseCtx) {
     a.finish(cc)
 }
 
+
+/// one dominant operand plus `n` operands that are each `d` nats smaller: individually
+/// negligible, together `n*e^-d` of the largest operand (kept below 5 % so that the subject's own
+/// per-term error stays far inside the bound)
+fn check_long_list(big: f64, d: f64, n: usize, cc: &mut CaseCtx) {
+    let mut a = Acc::new();
+    a.nontrivial = true;
+    let mut lps: Vec<LogProb> = Vec::with_capacity(n + 1);
+    lps.push(LogProb(big));
+    lps.extend(std::iter::repeat(LogProb(big - d)).take(n));
+    for pos in [0usize, n / 2, n] {
+        // the dominant operand first, in the middle, last
+        let mut v = lps.clone();
+        v.swap(0, pos);
+        match guard(|| *LogProb::ln_sum_exp(&v)) {
+            Err(m) => a.fail("ln_sum_exp", "panic", || format!("1 + {} x e^-{}: {}", n, d, m)),
+            Ok(r) => {
+                a.obs(r);
+                let got = (r - big).exp();
+                let want = 1.0 + n as f64 * (-d).exp();
+                if r.is_nan() {
+                    a.fail("ln_sum_exp", "nan", || format!("1 + {} x e^-{} gives NaN", n, d));
+                } else if !((got - want).abs() <= TOL) {
+                    a.fail("ln_sum_exp", "error-above-bound", || {
+                        format!("largest operand {} (at index {}) plus {} operands {} nats below it: relative to the largest operand got {} expected {}", big, pos, n, d, got, want)
+                    });
+                }
+            }
+        }
+    }
+    a.finish(cc)
+}
+
+const LONG_LISTS: &[(f64, usize)] = &[(8.0, 100), (12.0, 2_000), (14.0, 20_000), (16.0, 100_000), (18.0, 1_000_000), (20.0, 3_000_000)];
+
 /// p and q = p*(1+delta) for a ladder of relative distances in LOG space (the shortcut of
 /// ln_sub_exp compares the log values, where a tiny relative distance can still be a large
 /// ratio of the probabilities when |ln p| is large)
@@ -838,6 +873,11 @@ fn run_misc(tier: Tier, ctx: &mut Ctx) {
     for &p in NEAR_EQUAL_REL_BASES {
         ctx.case(|| json!({"kind": "near-equal-rel", "p": fv(p)}), |cc| check_near_equal_rel(p, cc));
     }
+    for &(d, n) in LONG_LISTS {
+        for big in [0.0f64, -3.0, -400.0] {
+            ctx.case(|| json!({"kind": "long-list", "big": fv(big), "d": fv(d), "n": n}), |cc| check_long_list(big, d, n, cc));
+        }
+    }
     ctx.case(|| json!({"kind": "empty-sum"}), check_empty_sum);
 }
 
@@ -945,6 +985,10 @@ impl Prop for C15Prop {
             },
             "ulp-block" => match (unfv(&case["center"]), case["from_ulps_towards_zero"].as_i64(), case["len"].as_i64()) {
                 (Some(c), Some(f), Some(len)) => ctx.case(|| case.clone(), |cc| check_ulp_block(c, f, len, cc)),
+                _ => bad(ctx),
+            },
+            "long-list" => match (unfv(&case["big"]), unfv(&case["d"]), case["n"].as_u64()) {
+                (Some(big), Some(d), Some(n)) => ctx.case(|| case.clone(), |cc| check_long_list(big, d, n as usize, cc)),
                 _ => bad(ctx),
             },
             "near-equal-rel" => match unfv(&case["p"]) {
